@@ -224,7 +224,8 @@ def k3_set_line(rep: Report) -> None:
 
             node = Context()
             if model.get("target_is_node"):
-                t: Any = Context(model.get("t_line", 1), model.get("t_column", -1), g("t_end_line"), g("t_end_column"))
+                t: Any = Context()
+                t.line, t.column, t.end_line, t.end_column = model.get("t_line", 1), model.get("t_column", -1), g("t_end_line"), g("t_end_column")
                 base = (t.line, t.column, t.end_line, t.end_column)
             else:
                 t = model.get("line", 1)
